@@ -173,6 +173,9 @@ def reflection(axis: Subspace) -> Transformation:
     return translation(x) * p * translation(-x)
 
 
+T = TypeVar("T", bound=Tensor)
+
+
 class TransformationTensor(ProjectiveTensor, ABC):
     """Represents a projective transformation in an arbitrary projective space.
 
@@ -196,8 +199,6 @@ class TransformationTensor(ProjectiveTensor, ABC):
 
     def __apply__(self, transformation: TransformationTensor) -> TransformationTensor:
         return TransformationCollection.from_array(matmul(transformation.array, self.array))
-
-    T = TypeVar("T", bound=Tensor)
 
     def apply(self, other: T) -> T:
         """Apply the transformation to another object.
